@@ -313,6 +313,12 @@ def case_extra(rep):
             W = np.asarray(base.function([F, None])[0], float)
             for tag, fac in (("virgin", 0.0), ("unloading", 2.0 + rep)):
                 MM.check_derivatives(run, name, um, F, (fac * W).reshape(1, *batch), unit=name + "[" + tag + "]", config="%s %s" % (name, tag))
+        # weak softening (large r): the softening factor stays within 1e-5 of one on a finite part of the unloading branch
+        base_w = fem.NeoHooke(mu=1.0, bulk=5.0)
+        um_w = fem.OgdenRoxburgh(base_w, r=float(rng.uniform(500, 5000)), m=1.0, beta=0.1)
+        Ww = np.asarray(base_w.function([F, None])[0], float)
+        MM.check_derivatives(run, "OgdenRoxburgh(NeoHooke)[weak softening]", um_w, F, (Ww + rng.uniform(5e-3, 5e-2, Ww.shape)).reshape(1, *batch),
+                             unit="OgdenRoxburgh(NeoHooke)[weak softening]", config="OgdenRoxburgh weak softening")
         ve = fem.Hyperelastic(fem.finite_strain_viscoelastic, mu=1.0, eta=float(rng.uniform(0.5, 2)), dtime=0.5, nstatevars=6)
         for name, um in (("Composite(viscoelastic&Volumetric)", ve & fem.Volumetric(bulk=3.0)), ("Composite(Volumetric&viscoelastic)", fem.Volumetric(bulk=3.0) & ve)):
             sv = np.zeros((6,) + batch)
@@ -406,7 +412,7 @@ def _required():
         req += ["out:%s:gradient" % n, "out:%s:hessian" % n]
     req += ["VolumeChange:hessian", "VolumeChange[parallel]:hessian", "AreaChange:gradient", "AreaChange[N]:gradient", "AreaChange[N][parallel]:gradient",
             "LineChange:gradient", "NeoHooke(mu,bulk)[parallel]:hessian", "tt.yeoh[parallel]:hessian", "NeoHooke(mu,bulk)[2x2]:hessian",
-            "NeoHookeCompressible(mu,lmbda)[F=I]:hessian", "Laplace[1x3]:hessian", "OgdenRoxburgh(NeoHooke(mu))[unloading]:hessian",
+            "NeoHookeCompressible(mu,lmbda)[F=I]:hessian", "Laplace[1x3]:hessian", "OgdenRoxburgh(NeoHooke(mu))[unloading]:hessian", "OgdenRoxburgh(NeoHooke)[weak softening]:hessian",
             "Composite(viscoelastic&Volumetric):hessian", "Composite(3 members):hessian", "tt.finite_strain_viscoelastic[batch q>1,c>1]:hessian",
             "jax.lagrange.morph[batch q>1,c>1]:hessian", "Plasticity[partly-yielding]:hessian"]
     return req
